@@ -87,6 +87,22 @@ func returnFacts(p *Prog, fn *ssa.Function, mode string) []Fact {
 			return
 		}
 		switch mode {
+		case "always":
+			// what holds of the returned object whichever way the helper returns
+			if ret.Block() != fn.Recover {
+				scenarios = append(scenarios, append(g.FactsAtBlock(ret.Block()), resultFieldFacts(g, ret)...))
+			}
+		default:
+			// "when:<field>=<0|1>": ... on the returns that set the result's bool field so (or not to a constant)
+			if strings.HasPrefix(mode, "when:") && ret.Block() != fn.Recover {
+				spec := strings.TrimPrefix(mode, "when:")
+				eq := strings.Index(spec, "=")
+				if eq > 0 {
+					if k, isConst := resultBoolField(ret, spec[:eq]); !isConst || fmt.Sprint(k) == spec[eq+1:] {
+						scenarios = append(scenarios, append(g.FactsAtBlock(ret.Block()), resultFieldFacts(g, ret)...))
+					}
+				}
+			}
 		case "true", "false":
 			scen(ret.Results[0], mode == "true", ret.Block(), nil, 0)
 		case "nilerr":
@@ -318,8 +334,19 @@ func resultFieldFacts(g *GuardCtx, ret *ssa.Return) []Fact {
 	fn := ret.Parent()
 	base := g.FactsAtBlock(ret.Block())
 	for k := range ret.Results {
-		al, ok := returnedValue(ret, k).(*ssa.Alloc)
-		if !ok || !al.Heap || derefStruct(al.Type()) == nil {
+		rvK := returnedValue(ret, k)
+		al, ok := rvK.(*ssa.Alloc)
+		byValue := false
+		if !ok {
+			// a struct returned by value: `return result{a, b, c}` is a local filled field by
+			// field and loaded as a whole
+			if ld, isLd := rvK.(*ssa.UnOp); isLd && ld.Op == token.MUL {
+				if a2, isA := ld.X.(*ssa.Alloc); isA {
+					al, ok, byValue = a2, true, true
+				}
+			}
+		}
+		if !ok || (!al.Heap && !byValue) || derefStruct(al.Type()) == nil {
 			continue
 		}
 		st := derefStruct(al.Type())
@@ -340,6 +367,10 @@ func resultFieldFacts(g *GuardCtx, ret *ssa.Return) []Fact {
 		for _, ref := range *al.Referrers() {
 			switch x := ref.(type) {
 			case *ssa.FieldAddr, *ssa.Return:
+			case *ssa.UnOp:
+				if !byValue {
+					escapes = true
+				}
 			default:
 				_ = x
 				escapes = true
@@ -356,6 +387,19 @@ func resultFieldFacts(g *GuardCtx, ret *ssa.Return) []Fact {
 			rsym := polySym(fmt.Sprintf("‹$ret%d›.%s", k, st.Field(fa.Field).Name()))
 			val := g.PC.Of(s.Val)
 			out = append(out, Fact{D: rsym.Sub(val), Eq: true, Why: "stored by the helper"})
+			// the larger / smaller of several values: at least / at most each of them
+			if syms := val.Symbols(); len(syms) == 1 && len(val) == 1 && val[syms[0]] == 1 {
+				if args := g.PC.opArgs[syms[0]]; len(args) > 0 {
+					for _, a := range args {
+						switch {
+						case strings.HasPrefix(syms[0], "max("):
+							out = append(out, Fact{D: rsym.Sub(a), Why: "the larger of the values stored by the helper"})
+						case strings.HasPrefix(syms[0], "min("):
+							out = append(out, Fact{D: a.Sub(rsym), Why: "the smaller of the values stored by the helper"})
+						}
+					}
+				}
+			}
 			// restate the facts about the stored value as facts about the field
 			if syms := val.Symbols(); len(syms) == 1 && len(val) == 1 {
 				if coef, rest, okl := val.SplitLinear(syms[0]); okl && len(rest) == 0 && coef.Equal(polyConst(1)) {
@@ -654,4 +698,43 @@ func (g *GuardCtx) entryFacts() []Fact {
 		}
 	}
 	return g.entry
+}
+
+// resultBoolField: the constant (0/1) the return stores into the bool field `name` of the object
+// it returns (first result), if it is a constant.
+func resultBoolField(ret *ssa.Return, name string) (int, bool) {
+	if len(ret.Results) == 0 {
+		return 0, false
+	}
+	rv := returnedValue(ret, 0)
+	var al *ssa.Alloc
+	switch x := rv.(type) {
+	case *ssa.Alloc:
+		al = x
+	case *ssa.UnOp:
+		al, _ = x.X.(*ssa.Alloc)
+	}
+	if al == nil || derefStruct(al.Type()) == nil {
+		return 0, false
+	}
+	st := derefStruct(al.Type())
+	for _, ref := range *al.Referrers() {
+		fa, ok := ref.(*ssa.FieldAddr)
+		if !ok || st.Field(fa.Field).Name() != name {
+			continue
+		}
+		for _, r2 := range *fa.Referrers() {
+			if s2, ok := r2.(*ssa.Store); ok && s2.Addr == ssa.Value(fa) && InstrDominates(s2, ret) {
+				if c, isC := s2.Val.(*ssa.Const); isC && c.Value != nil {
+					if c.Value.ExactString() == "true" {
+						return 1, true
+					}
+					if c.Value.ExactString() == "false" {
+						return 0, true
+					}
+				}
+			}
+		}
+	}
+	return 0, false
 }
